@@ -297,6 +297,22 @@ def run_case(key):
             continue
         res["outcomes"].append(digest(np.round([o[k] for k in PCT], 6)))
 
+        # ---- the same tensor in upper-triangular storage (the function's first step mirrors the
+        # upper triangle): same report (seed C12h)
+        if len(singles) <= 4:
+            count("upper_storage_irrelevant")
+            res["n"] += 1
+            try:
+                out3 = _EC(np.array([np.triu(M)]))
+                o3 = {k: float(out3[k][0]) for k in ["bulk_modulus", "shear_modulus"] + PCT}
+                ax3 = np.array(out3["hexagonal_axis"][0], float)
+                dv3 = max(abs(o3[k] - o[k]) / (np.abs(M).max() if "modulus" in k else 1.0) for k in o)
+                da3 = min(np.abs(ax3 - ax).max(), np.abs(ax3 + ax).max())
+                if not (dv3 <= 1e-9 and (da3 <= 1e-9 or not unambiguous)):
+                    V("upper_storage_irrelevant", qn, {"got": o3, "full_storage": o}, field="upper")
+            except Exception as e:
+                V("upper_storage_irrelevant", qn, {"exception": type(e).__name__, "msg": str(e)[:200]}, field="upper", exc=type(e).__name__)
+
         # ---- a whole-number matrix handed over as an int64 / float32 array (legal ndarrays)
         # is the same stiffness matrix: same report
         if np.array_equal(M, np.rint(M)) and np.abs(M).max() < 2**20:
